@@ -15,7 +15,7 @@ BOUNDS = {
     "quick": {"clean": "variable of 3 values, each masked / NaN / -999 / >1e30 / ordinary", "token": "1 token",
               "metrics": "12 metrics x 3 axes on 2 inputs of 2x1x2 cells (real, NaN; one cell may be +-inf)"},
     "thorough": {"clean": "variables of 4 values and of shape 2x2", "token": "1 token",
-                 "metrics": "12 metrics x 4 axes on 2 inputs of 2x2x2 cells"},
+                 "metrics": "12 metrics x 4 axes on 2 inputs of 2x2x1 cells"},
 }
 ASSUMPTIONS = ["a NetCDF variable is modelled as values + mask (what netCDF4 returns for fill/masked cells)",
                "cdf / quantile / ensemble / pit fields with missing values are decided in C08"]
@@ -177,7 +177,7 @@ def harnesses(tier):
     hs = [
         Harness("text_token", h_token(), "Text._clean on a symbolic token"),
         Harness("netcdf_clean", h_clean((3,)), "util.clean on a symbolic masked variable"),
-        Harness("metrics_via_data", h_metrics(2, 2 if thorough else 1, 2, thorough),
+        Harness("metrics_via_data", h_metrics(2, 2 if thorough else 1, 1 if thorough else 2, thorough),
                 "Metric.compute over Data with missing and infinite cells"),
     ]
     if thorough:
